@@ -183,7 +183,12 @@ func ConfigYAML(cfg PCfg, skipValidation bool, base string) string {
 	} else {
 		sb.WriteString("resolver:\n  filename: graph/resolver.go\n  type: Resolver\n  package: graph\n")
 	}
-	if cfg.ab() != "none" {
+	switch cfg.ab() {
+	case "none":
+	case "exec":
+		// the package generated.go lives in is autobound (hand-written models kept next to the resolvers)
+		fmt.Fprintf(&sb, "autobind:\n  - %q\n", base+"/graph")
+	default:
 		// hand-written models are kept next to the generated ones: the model output package is autobound
 		fmt.Fprintf(&sb, "autobind:\n  - %q\n", base+"/graph/model")
 	}
@@ -195,7 +200,10 @@ func ConfigYAML(cfg PCfg, skipValidation bool, base string) string {
 func (c *Conc) WriteSchema(s *PState) error {
 	var base strings.Builder
 	base.WriteString("directive @goField(forceResolver: Boolean, name: String, omittable: Boolean) on INPUT_FIELD_DEFINITION | FIELD_DEFINITION\n\n")
-	if s.Cfg.ab() == "hand" {
+	if s.Cfg.ab() == "exec" {
+		// Config / ResolverRoot are named like top-level identifiers of generated.go, which lives in the autobound package
+		base.WriteString("type Query {\n  keep: Boolean\n  config: Config\n  root: ResolverRoot\n}\n\ntype Config {\n  id: ID!\n  name: String\n}\n\ntype ResolverRoot {\n  id: ID!\n}\n")
+	} else if s.Cfg.ab() == "hand" {
 		// Account is hand-written in graph/model/account.go and found through autobind of the model package
 		base.WriteString("type Query {\n  keep: Boolean\n  account(id: ID!): Account\n}\n\ntype Account {\n  id: ID!\n  name: String!\n}\n")
 	} else {
@@ -258,7 +266,12 @@ func (c *Conc) Create(s *PState) error {
 	if err := os.WriteFile(filepath.Join(c.Root, "gqlgen.yml"), []byte(ConfigYAML(s.Cfg, true, c.Base)), 0o644); err != nil {
 		return err
 	}
-	if ab := s.Cfg.ab(); ab != "none" {
+	if s.Cfg.ab() == "exec" {
+		// an autobound package must exist (and hold a Go file) before the first generation
+		if err := os.WriteFile(filepath.Join(c.Root, "graph", "doc.go"), []byte("// Package graph holds the resolvers and the generated executor.\npackage graph\n"), 0o644); err != nil {
+			return err
+		}
+	} else if ab := s.Cfg.ab(); ab != "none" {
 		// an autobound package must exist before the first generation: it holds hand-written Go
 		if err := os.MkdirAll(filepath.Join(c.Root, "graph", "model"), 0o755); err != nil {
 			return err
